@@ -22,15 +22,15 @@ func init() {
 	core.Register(&core.Simple{
 		Id: "C18", Lvl: "exploration", Quick: 200, Thorough: 5000, PerBatch: 50, Width: 16, Timeout: 1500,
 		RuleText: "each case is a history of 15-35 news requests sent through the real connection loop (create bundle/category at nested paths, post, reply (mostly into categories, sometimes into bundles, which the server also accepts), delete article, delete item, read-only requests and article deletion on non-existent paths, reload of the live store and a second store opened on the file); titles 0..255 bytes, bodies up to ~60 KiB, names with YAML-significant text and high bytes; after every step the category listing of every model path, the article list of every category and get-article of every article are decoded by the reference decoder and compared with a reference news model implementing the stated linking rules. distinct = multiset of operation kinds; non-trivial = history contains a post and a delete",
-		Case: runCase,
+		Case:     runCase,
 	})
 }
 
 type art struct {
 	title, poster, body string
-	date               []byte
-	parent, prev, next uint32
-	first              uint32
+	date                []byte
+	parent, prev, next  uint32
+	first               uint32
 }
 
 type node struct {
@@ -41,13 +41,13 @@ type node struct {
 }
 
 type world struct {
-	c     *core.Case
-	srv   *fixture.Server
-	cl    *refclient.Client
-	root  *node
-	log   []string
-	kinds map[string]int
-	step  int
+	c      *core.Case
+	srv    *fixture.Server
+	cl     *refclient.Client
+	root   *node
+	log    []string
+	kinds  map[string]int
+	step   int
 	poster string
 }
 
